@@ -1016,7 +1016,10 @@ def run(ctx: C.Ctx):
                 'CONVERSION (c18_conv.py): Dict / DefaultDict / TypedDict / nested-dataclass / Optional[Dict] fields fed from os.environ, a '
                 'dotenv file, a secrets file or a str keyword, in the `k=v, k=v` shorthand or JSON form, values drawn from an alphabet '
                 'with "=" ":" "?" "/" "&" blanks (JSON form: also ","): result vs the documented reading (pairs cut at their FIRST "=", '
-                'stripped, value converted by the value type) and vs the Lean EnvLoader model.')
+                'stripped, value converted by the value type) and vs the Lean EnvLoader model. LEAF TYPES IN POSITIONS: a str / int / float / '
+                'bool / bytes / bytearray leaf - bare, Optional, in the comma / k=v shorthand of list / set / dict / TypedDict / nested '
+                'dataclass, inside the JSON forms and the mixed forms - from each of the four sources: every leaf of the result is the '
+                'documented conversion of its string (bytes / bytearray: the utf-8 encoding), also vs the Lean EnvLoader model.')
     quirks, probes = probe_quirks()
     ctx.notes['quirks_probed'] = quirks
     ctx.trusted += ['C18: python-dotenv parses `KEY=value` lines and Path.read_text returns the secret file content verbatim (overlay '
